@@ -1,1 +1,84 @@
-(* to be filled *)
+(* C18, link level - what the linker does with the allow-list entries and the /DISCARD/ block.
+   Only statements, each closed by [exact]; see Proofs/C18Link.v.  For every previous-pass environment
+   [env]/[senv], object symbols [ext], kind of pass [final] and state. *)
+From Slinky Require Import Model.Types Model.Runtime Model.Style Model.Script Model.Writer Model.LdSem.
+From Slinky Require Import Spec.C17 Spec.C04 Proofs.C18Link.
+From Coq Require Import ZArith Permutation.
+Local Open Scope string_scope.
+Local Open Scope Z_scope.
+
+(* C18_allow_placed: "sect 0 : { *(sect); }" places exactly the still-unplaced input sections named
+   sect, of every file, in an output section named sect at address 0, and they are unplaced no more *)
+Theorem C18_allow_placed : forall env senv ext final st sect,
+  let st' := exec_top_stmt env senv ext final st (SSingleEntry sect) in
+  let chosen := filter (named sect) (l_remaining st) in
+  l_remaining st' = filter (fun u => negb (named sect u)) (l_remaining st) /\
+  (exists pls, l_placed st' = (l_placed st ++ pls)%list /\ map pl_marker pls = map u_marker chosen /\
+               Forall (fun p => pl_outsec p = sect) pls) /\
+  (exists o, l_secs st' = (l_secs st ++ [o])%list /\ os_name o = sect /\ os_vma o = 0 /\ os_noload o = false) /\
+  l_discarded st' = l_discarded st /\ l_syms st' = l_syms st /\ l_errors st' = l_errors st.
+Proof. exact allow_placed. Qed.
+
+(* C18_discard: the /DISCARD/ block moves to the discarded exactly the still-unplaced sections whose
+   name is one of the patterns - all of them when the wildcard is present; nothing already placed is
+   touched; with the wildcard nothing stays unplaced *)
+Theorem C18_discard : forall env senv ext final st pats wild,
+  let st' := exec_top_stmt env senv ext final st (SDiscard pats wild) in
+  l_discarded st' = (l_discarded st ++ map u_marker (filter (hit pats wild) (l_remaining st)))%list /\
+  l_remaining st' = filter (fun u => negb (hit pats wild u)) (l_remaining st) /\
+  l_placed st' = l_placed st /\ l_secs st' = l_secs st /\ l_syms st' = l_syms st /\
+  (wild = true -> l_remaining st' = []).
+Proof. exact discard. Qed.
+
+(* one statement, whatever it is: nothing leaves l_placed; l_discarded only receives markers of
+   sections that were still unplaced at that moment; the markers of the input sections are only moved
+   between placed / discarded / unplaced (a permutation) *)
+Theorem C18_statement_moves : forall env senv ext final st s,
+  Permutation (accounted (exec_top_stmt env senv ext final st s)) (accounted st) /\
+  (exists new, l_placed (exec_top_stmt env senv ext final st s) = (l_placed st ++ new)%list) /\
+  (exists f, l_discarded (exec_top_stmt env senv ext final st s) =
+             (l_discarded st ++ map u_marker (filter f (l_remaining st)))%list).
+Proof. exact top_accounted. Qed.
+
+(* a whole script *)
+Theorem C18_script_moves : forall env senv ext final script st,
+  Permutation (accounted (exec_script env senv ext final script st)) (accounted st) /\
+  (exists new, l_placed (exec_script env senv ext final script st) = (l_placed st ++ new)%list) /\
+  (exists new, l_discarded (exec_script env senv ext final script st) = (l_discarded st ++ new)%list).
+Proof. exact script_accounted. Qed.
+
+(* what is still unplaced only shrinks *)
+Theorem C18_remaining_shrinks : forall env senv ext final script st,
+  exists f, l_remaining (exec_script env senv ext final script st) = filter f (l_remaining st).
+Proof. exact script_remaining. Qed.
+
+(* C18_placed_never_discarded: in a pass over input sections with distinct markers every section is
+   in exactly one place at the end; in particular a section placed by a segment or by an allow-list
+   entry - which precede the discard block (C18_tail_last) - is never discarded *)
+Theorem C18_placed_never_discarded : forall env senv ext final script u,
+  NoDup (map u_marker u) ->
+  let st' := exec_script env senv ext final script (init_state u) in
+  Permutation (accounted st') (map u_marker u) /\
+  (forall m, In m (map pl_marker (l_placed st')) -> ~ In m (l_discarded st')) /\
+  (forall m, In m (map pl_marker (l_placed st')) -> ~ In m (map u_marker (l_remaining st'))).
+Proof. exact placed_never_discarded. Qed.
+
+(* the sample document, with a .mdebug section (allow-listed), a .reginfo section (denied) and a
+   .comment section (caught by the wildcard) in the objects *)
+Example ex_link_discard :
+  let st := layout ex_script ex_universe_discard [("main", 5)] in
+  l_errors st = [] /\ l_remaining st = [] /\
+  l_discarded st = ["boot_reginfo"; "a_comment"] /\
+  map (fun p => (pl_marker p, pl_outsec p)) (l_placed st) =
+  [("boot_text", ".boot"); ("a_text", ".ovl_a"); ("boot_mdebug", ".mdebug"); ("a_mdebug", ".mdebug")] /\
+  NoDup (map u_marker ex_universe_discard).
+Proof.
+  vm_compute. repeat split; try reflexivity. repeat constructor; simpl; intuition discriminate.
+Qed.
+
+Print Assumptions C18_allow_placed.
+Print Assumptions C18_discard.
+Print Assumptions C18_statement_moves.
+Print Assumptions C18_script_moves.
+Print Assumptions C18_remaining_shrinks.
+Print Assumptions C18_placed_never_discarded.
